@@ -6,7 +6,7 @@ TY_TB = [
 PROPS = {
     "C16": {
         "harness": "vh-types",
-        "level_text": "Kernel-checked theorems about an executable Lean model of union_type / union_type_all / can_use_structural_union / LuaType::from_vec and of check_type_compact (with its level guard) for the annotation fragment: batch union = pairwise fold for every list and environment (up to the order of union members, which is the equality of LuaUnionType), plus the assignability laws on the model; the model is compared with the real functions on generated declarations/types/lists/pairs every run, and the laws are evaluated on the real checker independently.",
+        "level_text": "Kernel-checked theorems about an executable Lean model of union_type / union_type_all / can_use_structural_union / LuaType::from_vec and of check_type_compact (with its level guard) for the annotation fragment: batch union = pairwise fold for every list and environment (up to the order of union members, which is the equality of LuaUnionType); reflexivity for every well-formed type (decidable wf: declared classes, unions of distinct atoms, arrays / tuples / table<...> / records nested arbitrarily, within an explicit guard-level and fuel budget), the union-member law for unions of atoms, acceptance of every descendant where an ancestor is expected for inheritance chains of any length (completeness of the is_sub_type_of walk on every graph), any/unknown on both sides, and the guard's TypeRecursion branch for arrays nested 51+ deep; the model is compared with the real functions on generated declarations/types/lists/pairs every run, and the laws are evaluated on the real checker independently.",
         "level_note": "Trusted: Lean kernel, harness serialiser, the differential run as the tie (not a proof about the Rust). Modelled: db_index/type/type_ops/union_type.rs, LuaType::from_vec, LuaUnionType::{from_vec,into_vec,eq}, get_real_type, semantic/type_check/{mod,simple_type,ref_type,sub_type,complex_type/*} restricted to the fragment (no generics/enums/members/variadics/table literals); types outside the fragment are counted and skipped.",
         "trusted_base": TY_TB,
         "assumptions": [
@@ -18,7 +18,7 @@ PROPS = {
     },
     "C17": {
         "harness": "vh-types",
-        "level_text": "Kernel-checked theorems about an executable Lean model of TypeHumanizer at RenderLevel::Documentation (layout as a syntax tree, level stepping, item limits, depth guard) and of the doc type parser + infer_type for the C17 sub-grammar: for every syntax tree of the sub-grammar the parser reads back exactly what the printer wrote, hence for every type that fits, parsing the rendering consumes it completely and converts the very tree the renderer laid out (no regrouping of unions / optionals / arrays, no changed literal token); the renderer and the reader models are compared with humanize_type and with the real annotation analysis on generated types every run, and render -> `---@type` -> compare is evaluated on the implementation independently. Partial: that the conversion of the laid-out tree equals the original type up to member order is proved for atoms only and otherwise checked by the runs.",
+        "level_text": "Kernel-checked theorems about an executable Lean model of TypeHumanizer at RenderLevel::Documentation (layout as a syntax tree, level stepping, item limits, depth guard) and of the doc type parser + infer_type for the C17 sub-grammar: for every syntax tree of the sub-grammar the parser reads back exactly what the printer wrote, hence for every type that fits, parsing the rendering consumes it completely and converts the very tree the renderer laid out (no regrouping of unions / optionals / arrays, no changed literal token); for basic kinds, literals, references and arrays of them the full statement parse(render t) = t is proved; the renderer and the reader models are compared with humanize_type and with the real annotation analysis on generated types every run, and render -> `---@type` -> compare is evaluated on the implementation independently. Partial: that the conversion of the laid-out tree equals the original type up to member order is proved for atoms only and otherwise checked by the runs.",
         "level_note": "Trusted: Lean kernel, harness serialiser, differential runs as the tie; the character level (escaping, lexing) is modelled and compared but not part of the theorem. Modelled: humanize_type.rs write_type/write_union_type/write_array_type/write_table_generic_type/write_object_type/write_hover_escape_string, grammar/doc/types.rs parse_type..parse_suffixed_type, infer_type for names/literals/nullable/array/union/table/object.",
         "trusted_base": TY_TB + ["the text layer (showType / lex) of the model is tied by the runs only"],
         "assumptions": [
@@ -30,7 +30,7 @@ PROPS = {
     },
     "C18": {
         "harness": "vh-types",
-        "level_text": "Kernel-checked theorem about an executable Lean model of tpl_pattern_match (first candidate wins, arrays / table<K,V> / parameterless functions descend, a union pattern matches the whole target) and instantiate_type_generic with literal widening: for every parameter list without optional patterns, every assignment of argument components and every return type over the parameters' template variables, calling with the instances infers the return type with the (literal-widened) components substituted; the optional pattern `T?` is covered by a witness of the current behaviour. The model is compared with the inferred type of `local r = f(arg...)` on generated calls every run, and an independent oracle (declared return type with the bindings substituted, read through the real annotation analysis) is evaluated on the implementation.",
+        "level_text": "Kernel-checked theorem about an executable Lean model of tpl_pattern_match (first candidate wins, arrays / table<K,V> / parameterless functions descend, a union pattern matches the whole target) and instantiate_type_generic with literal widening: for every parameter list (the optional pattern `T?` included, after the fix that lets it consume the argument's nil), every assignment of argument components and every return type over the parameters' template variables, calling with the instances infers the return type with the (literal-widened) components substituted. The model is compared with the inferred type of `local r = f(arg...)` on generated calls every run, and an independent oracle (declared return type with the bindings substituted, read through the real annotation analysis) is evaluated on the implementation.",
         "level_note": "Partial by the scope of the property: overload resolution, conditional / mapped generics, variadics, constraints, class generics and string templates are outside the model; the template family is identity, T[] -> T, T -> T[], pair -> table<T,U>, table<K,V> -> V / K, T? -> T, fun(): T -> T, T[][] -> T[]. Trusted: Lean kernel, harness serialiser, differential run as the tie.",
         "trusted_base": TY_TB,
         "assumptions": [
@@ -42,7 +42,7 @@ PROPS = {
     },
     "C12": {
         "harness": "vh-types",
-        "level_text": "Partial. Kernel-checked theorems about the recursion guards only, as walks over an arbitrary finite declaration graph with cyclic aliases and cyclic inheritance allowed: TypeCheckGuard admits levels 1..100 and every guarded recursion past it answers TypeRecursion; get_alias_real_type never needs more than 102 - level steps for any graph; get_real_type stops after ten hops; super_reaches never re-enters a visited declaration; the humanizer renders nothing once its depth guard is used up; witnesses for cyclic inheritance and cyclic aliases. The check_type_compact model is compared with the implementation on generated cyclic graphs every run (in a child process with a time budget). Everything else is search only: the whole pipeline (index, full diagnostics, semantic info at every token) on generated and mutated annotated programs x 2 configurations in child processes with a 2 MiB stack, catch_unwind and a per-program time budget.",
+        "level_text": "Partial. Kernel-checked theorems about the recursion guards only, as walks over an arbitrary finite declaration graph with cyclic aliases and cyclic inheritance allowed: TypeCheckGuard admits levels 1..100 and every guarded recursion past it answers TypeRecursion; get_alias_real_type never needs more than 102 - level steps for any graph; get_real_type stops after ten hops; super_reaches never re-enters a visited declaration; the humanizer renders nothing once its depth guard is used up; re-entering the unfolding of an alias for the same compact type answers TypeRecursion at once (after the alias-in-progress fix); witnesses for cyclic inheritance, cyclic aliases and the formerly exponential cyclic union aliases. The check_type_compact model is compared with the implementation on generated cyclic graphs every run (in a child process with a time budget). Everything else is search only: the whole pipeline (index, full diagnostics, semantic info at every token) on generated and mutated annotated programs x 2 configurations in child processes with a 2 MiB stack, catch_unwind and a per-program time budget.",
         "level_note": "Proof level covers the guards; crash-freedom of the rest of the pipeline is exploration-level evidence. Not proved: that the model's fuel is never exhausted by check_type_compact as a whole (the same-level recursion through union members), nor any bound on total work below the guard (see finding C12-cyclic-alias-blowup).",
         "trusted_base": TY_TB + ["child processes: a program that kills or hangs the child is attributed by the progress file"],
         "assumptions": ["2 configurations (default strict flags / relaxed), no standard library loaded", "time budget 10 s per program, 5 s per check_type_compact call"],
